@@ -1287,6 +1287,10 @@ class System:
             # Else, the last added module wins
             self._remove(first)
             self.unprocessed_modules.remove(first)
+            if first.parent is not None and first.parent.contents.get(first.name) is first:
+                # The replaced module might have another parent than the new one (directory "a.b" vs "a/b.py"):
+                # do not leave it behind in its parent's contents.
+                del first.parent.contents[first.name]
             self._addUnprocessedModule(dup)
 
     def _introspectThing(self, thing: object, parent: CanContainImportsDocumentable, parentMod: _ModuleT) -> None:
